@@ -420,6 +420,51 @@ def _decorator_shape(dfn: ast.FunctionDef):
         inner = plain(body[0])
         if inner is not None:
             return inner[0], [x.arg for x in a.args], inner[1]
+    # a factory may first name a few values computed from its (constant) arguments: `message = "... %s" % name`; such a local,
+    # assigned once from a pure expression over the factory's parameters and constants, is that expression
+    if len(body) > 2 and isinstance(body[-2], ast.FunctionDef) and isinstance(body[-1], ast.Return) and isinstance(body[-1].value, ast.Name) and body[-1].value.id == body[-2].name:
+        fparams = [x.arg for x in a.args]
+        known = set(fparams)
+        pre: List[Tuple[str, ast.expr]] = []
+
+        def pure(e: ast.expr) -> bool:
+            if isinstance(e, ast.Constant):
+                return True
+            if isinstance(e, ast.Name):
+                return e.id in known
+            if isinstance(e, ast.BinOp) and isinstance(e.op, (ast.Add, ast.Mod)):
+                return pure(e.left) and pure(e.right)
+            if isinstance(e, ast.Tuple):
+                return all(pure(x) for x in e.elts)
+            if isinstance(e, ast.JoinedStr):
+                return all(isinstance(v, ast.Constant) or (isinstance(v, ast.FormattedValue) and v.format_spec is None and pure(v.value)) for v in e.values)
+            return False
+
+        for st in body[:-2]:
+            if not (isinstance(st, ast.Assign) and len(st.targets) == 1 and isinstance(st.targets[0], ast.Name) and st.targets[0].id not in known and pure(st.value)):
+                return None
+            pre.append((st.targets[0].id, st.value))
+            known.add(st.targets[0].id)
+        inner = plain(body[-2])
+        if inner is None:
+            return None
+        if any(isinstance(n, ast.Name) and isinstance(n.ctx, ast.Store) and n.id in known for n in ast.walk(inner[1])):
+            return None
+        w = copy.deepcopy(inner[1])
+
+        class _Pre(ast.NodeTransformer):
+            def __init__(self_, m):
+                self_.m = m
+
+            def visit_Name(self_, n):
+                if isinstance(n.ctx, ast.Load) and n.id in self_.m:
+                    return ast.copy_location(copy.deepcopy(self_.m[n.id]), n)
+                return n
+        m: dict = {}
+        for nm, e in pre:
+            m[nm] = _Pre(dict(m)).visit(copy.deepcopy(e))
+        w = _Pre(m).visit(w)
+        return inner[0], fparams, w
     return None
 
 
@@ -443,6 +488,8 @@ def _apply_decorators(tree: ast.Module) -> ast.Module:
             shapes[nm] = sh
     if not shapes:
         return tree
+
+    used: dict = {}
 
     def rewrite(fdef, in_class: bool):
         if len(fdef.decorator_list) != 1:
@@ -489,6 +536,29 @@ def _apply_decorators(tree: ast.Module) -> ast.Module:
                 c.args = [ast.Name(id=nm, ctx=ast.Load()) for nm in names]
                 c.keywords = []
             first = names[0] if names else None
+        elif wa.vararg and wa.kwarg and wa.args and not wa.kwonlyargs and not wa.posonlyargs and not wa.defaults:
+            # (p1, .., pk, *args, **kwargs) calling fn(p1, .., pk, *args, **kwargs): the wrapper names the leading parameters it
+            # uses itself; the rest of the decorated function's own parameters stand where *args / **kwargs were
+            if oa.vararg or oa.kwarg or oa.kwonlyargs or oa.posonlyargs:
+                return None
+            pre = [x.arg for x in wa.args]
+            names = [x.arg for x in oa.args]
+            if names[:len(pre)] != pre:
+                return None
+            for c in calls:
+                if not (len(c.args) == len(pre) + 1 and all(isinstance(x, ast.Name) and x.id == nm for x, nm in zip(c.args, pre))
+                        and isinstance(c.args[-1], ast.Starred) and isinstance(c.args[-1].value, ast.Name) and c.args[-1].value.id == wa.vararg.arg
+                        and len(c.keywords) == 1 and c.keywords[0].arg is None and isinstance(c.keywords[0].value, ast.Name) and c.keywords[0].value.id == wa.kwarg.arg):
+                    return None
+            if any(isinstance(n, ast.Name) and n.id in (wa.vararg.arg, wa.kwarg.arg) and not any(n is c.args[-1].value or n is c.keywords[0].value for c in calls) for n in ast.walk(w2)):
+                return None
+            if any(isinstance(n, ast.Name) and isinstance(n.ctx, ast.Store) and n.id in names[len(pre):] for n in ast.walk(w2)):
+                return None  # a local of the wrapper would collide with a parameter that takes the place of *args
+            w2.args = copy.deepcopy(oa)
+            for c in calls:
+                c.args = [ast.Name(id=nm, ctx=ast.Load()) for nm in names]
+                c.keywords = []
+            first = names[0] if names else None
         else:
             first = wa.args[0].arg if wa.args else None
         for c in calls:
@@ -511,7 +581,22 @@ def _apply_decorators(tree: ast.Module) -> ast.Module:
             w2 = Sub().visit(w2)
 
             class Fold(ast.NodeTransformer):
-                """an f-string piece that became a constant is part of the text (f'in {"Router"}' is 'in Router')"""
+                """an f-string piece that became a constant is part of the text (f'in {"Router"}' is 'in Router'); so is
+                'in %s' % 'Router' and 'in ' + 'Router'"""
+                def visit_BinOp(self_, n):
+                    self_.generic_visit(n)
+                    if isinstance(n.op, (ast.Mod, ast.Add)) and isinstance(n.left, ast.Constant) and isinstance(n.left.value, str):
+                        try:
+                            if isinstance(n.op, ast.Add) and isinstance(n.right, ast.Constant) and isinstance(n.right.value, str):
+                                return ast.copy_location(ast.Constant(value=n.left.value + n.right.value), n)
+                            if isinstance(n.op, ast.Mod) and isinstance(n.right, ast.Constant) and isinstance(n.right.value, (str, int)):
+                                return ast.copy_location(ast.Constant(value=n.left.value % n.right.value), n)
+                            if isinstance(n.op, ast.Mod) and isinstance(n.right, ast.Tuple) and all(isinstance(x, ast.Constant) and isinstance(x.value, (str, int)) for x in n.right.elts):
+                                return ast.copy_location(ast.Constant(value=n.left.value % tuple(x.value for x in n.right.elts)), n)
+                        except Exception:
+                            return n
+                    return n
+
                 def visit_JoinedStr(self_, n):
                     self_.generic_visit(n)
                     parts = []
@@ -534,6 +619,7 @@ def _apply_decorators(tree: ast.Module) -> ast.Module:
             doc = ast.get_docstring(fdef, clean=False)
             if doc is not None:
                 w2.body.insert(0, ast.Expr(value=ast.Constant(value=doc)))
+        used[dname] = used.get(dname, 0) + 1
         orig = copy.deepcopy(fdef)
         orig.name = priv
         orig.decorator_list = []
@@ -557,6 +643,13 @@ def _apply_decorators(tree: ast.Module) -> ast.Module:
         return out
 
     tree.body = walk_body(tree.body, False)
+    # a private decorator all of whose uses were rewritten is not referred to any more: it is not a definition of the module
+    for nm in list(shapes):
+        if nm.startswith("_") and not nm.startswith("__"):
+            rest = [n for st in tree.body if not (isinstance(st, ast.FunctionDef) and st.name == nm) for n in ast.walk(st)
+                    if (isinstance(n, ast.Name) and n.id == nm) or (isinstance(n, ast.Constant) and n.value == nm)]
+            if not rest and used.get(nm):
+                tree.body = [st for st in tree.body if not (isinstance(st, ast.FunctionDef) and st.name == nm)]
     return tree
 
 
